@@ -1,6 +1,6 @@
 #!/bin/bash
 # re-test every archived seed (and any extra patch given as <patch>:<prop>) ; prints one RESULT line each
-cd /verif
+cd "$(dirname "$0")/.."
 for d in seeded/*/; do
   n=$(basename $d); prop=$(python3 -c "import json;print(json.load(open('$d/meta.json'))['property'])")
   echo "=== $n ($prop)"; tools/seedtest.sh /verif/${d}patch.diff $prop 2>&1 | grep -E "^RESULT|VIOLATION" | head -3
